@@ -8,7 +8,7 @@ def run(ctx):
     try:
         lq.standard(ctx, "C42", ("LedgerQuery_C42.cfg", "LedgerQuery_C42t.cfg"), ["Submit:ok", "PreExec", "Restart"],
                     {"unchanged", "views", "history"},
-                    tv=({"ntraces": 2, "nsteps": 40}, {"ntraces": 10, "nsteps": 80}), tags=("verif",),
+                    tv=({"ntraces": 2, "nsteps": 40}, {"ntraces": 10, "nsteps": 80}), tags=("verif",), reference=True,
                     assumptions=["pre-execution interfaces driven: PreExecuteContract (native transfer signed by its owner, failing transfer, "
                                  "NeoVM deploy, NeoVM contract writing storage, malformed script, EIP-155 transfer/create/call emitting a log and "
                                  "writing storage), PreExecuteContractBatch (atomic and not), PreExecuteEip155Tx (call, create)",
